@@ -282,14 +282,17 @@ Qed.
 (* ---------- Settings.__getitem__ ---------- *)
 Lemma settings_getitem_spec id s : In id (store s) ->
   exists c s', settings_getitem id s = Ok (c, s') /\ ext s s' /\ sget (settings s') id = Some c
-  /\ (forall o, cget o c = cache_of s id o).
+  /\ (forall o, cget o c = cache_of s id o)
+  /\ (forall id' o', cache_of s' id' o' = cache_of s id' o').
 Proof.
   intros Hst. unfold settings_getitem. msimp.
   replace (memN id (store s)) with true by (symmetry; apply memN_In; exact Hst). msimp.
   destruct (sget (settings s) id) as [c|] eqn:Es.
   - exists c, s. split; [reflexivity|]. split; [apply ext_refl|]. split; [exact Es|].
-    intros o. unfold cache_of. rewrite Es. reflexivity.
-  - msimp. eexists cempty, _. split; [reflexivity|]. split; [|split].
+    split; [|reflexivity]. intros o. unfold cache_of. rewrite Es. reflexivity.
+  - msimp. eexists cempty, _. split; [reflexivity|]. split; [|split; [|split]].
+    4:{ intros id' o'. rewrite cache_of_sset. destruct (N.eqb id id') eqn:E; [|reflexivity].
+        apply N.eqb_eq in E. subst. unfold cache_of. rewrite Es. apply cget_cempty. }
     + constructor; try reflexivity. constructor; [constructor|].
       * constructor; reflexivity.
       * intros id' o k. rewrite cache_of_sset. destruct (N.eqb id id'); [rewrite cget_cempty; discriminate | auto].
@@ -337,30 +340,3 @@ Proof.
   - eapply Permutation_NoDup; [symmetry; exact P|]. constructor; [exact Hn | apply (c_nodup _ C)].
 Qed.
 
-Lemma base_add_spec id s : CoreV s -> In id (store s) -> ~ In id (raw_ids s) ->
-  exists s', _base_add id s = Ok (tt, s') /\ updm s s' /\ focus s' = focus s /\ log s' = log s
-  /\ CoreV s' /\ Permutation (raw_ids s') (id :: raw_ids s).
-Proof.
-  intros C Hst Hn. unfold _base_add. msimp.
-  destruct (okey_call_spec (okey s) id s) as (k & s1 & E1 & X1 & _ & Hk1 & _).
-  rewrite (bind_ok _ _ _ _ _ E1).
-  assert (St1 : store s1 = store s) by apply (ce_store _ _ (u_cfg _ _ (um_upd _ _ (e_updm _ _ X1)))).
-  assert (Hst1 : In id (store s1)) by (rewrite St1; exact Hst).
-  destruct (settings_getitem_spec id s1 Hst1) as (c & s2 & E2 & X2 & Hs2 & Hc2).
-  rewrite (bind_ok _ _ _ _ _ E2). msimp.
-  assert (Hck : cget (okey s) c = Some k) by (rewrite Hc2; auto).
-  pose proof (ext_cache_same s2 id (okey s) k c Hs2 Hck) as X3.
-  set (s3 := set_settings (sset (settings s2) id (cset (okey s) k c)) s2) in *.
-  assert (X13 : ext s s3) by (eapply ext_trans; [exact X1 | eapply ext_trans; eauto]).
-  destruct (view_add_spec id s3) as (s4 & E4 & U4 & F4 & L4 & k4 & V4 & Hk4 & Hn4).
-  exists s4. split; [exact E4|].
-  assert (U : updm s s4) by (eapply updm_trans; [apply (e_updm _ _ X13) | exact U4]).
-  split; [exact U|]. split; [rewrite F4; apply (e_focus _ _ X13)|]. split; [rewrite L4; apply (e_log _ _ X13)|].
-  assert (Ok3 : okey s3 = okey s) by apply (ce_okey _ _ (u_cfg _ _ (um_upd _ _ (e_updm _ _ X13)))).
-  assert (St3 : store s3 = store s) by apply (ce_store _ _ (u_cfg _ _ (um_upd _ _ (e_updm _ _ X13)))).
-  assert (K3 : cache_of s3 id (okey s) = Some k).
-  { apply (um_mono _ _ (e_updm _ _ (ext_trans _ _ _ X2 X3))). auto. }
-  rewrite Ok3, St3 in *. rewrite (e_view _ _ X13) in V4.
-  assert (k4 = k) by (apply (Hk4 Hst _ K3)). subst k4.
-  eapply CoreV_add; eauto.
-Qed.
